@@ -84,7 +84,7 @@ class TableOracle:
         heads = [(s.addr, s.queue[0]) for s in node.udp.values() if s.queue]
         kq = [q for s in node.kernel.event_socks for q in s.queue[:1]]
         self.cur = {'node': node.name, 'heads': heads, 'kq': kq, 'snap': snap_node(node, timers=False),
-                    'timer': timers_due(node), 'objs': list(node.ike_sas()),
+                    'timer': timers_due(node), 'objs': list(node.ike_sas()), 'inc': node.incarnation,
                     'child_spis': {id(sa): {x for c in sa.child_sas for x in (bytes(c.inbound_spi), bytes(c.outbound_spi))}
                                    for sa in node.ike_sas()}}
 
@@ -145,6 +145,16 @@ class TableOracle:
             del self.waiting[k]
         if cur is None or cur['node'] != N:
             return
+        # ---- an IKE_SA leaves the table only because it ended (DELETED) or never started anything (INITIAL): one that is dropped in the
+        #      middle of an exchange is still held by the peer and by the kernel, and its answer will meet an "unknown SPI"
+        if cur['inc'] == node.incarnation:
+            for sa in cur['objs']:
+                if not any(x is sa for x in tab) and sa.state.name not in ('DELETED', 'INITIAL'):
+                    self._r('left_table')
+                    return self.viol('live_ike_sa_dropped_from_table', {'state': sa.state.name, 'trigger': self._trigger(cur, cause)},
+                                     f'{N}: IKE_SA {sa.my_spi.hex()} left the table in state {sa.state.name} after {self._trigger(cur, cause)}')
+                elif not any(x is sa for x in tab):
+                    self._r('left_table')
         # ---- routing of datagrams
         calls = list(self.probe.calls)
         for addr, (data, src) in cur['heads']:
